@@ -796,6 +796,9 @@ func (c *Ctx) doLock(s *State, in ssa.Instruction, key string, base Term, write 
 	s.locks = append(s.locks, LockHeld{Key: key, Base: base, Write: write, Level: lvl})
 	s.seq++
 	s.trace = append(s.trace, Event{Name: "lock:" + key, Args: []Value{Sc{T: base}}, PC: len(s.pc), Pos: pos, Seq: s.seq})
+	// time passes while waiting for the lock
+	c.getHeap(s, "Clock", SInt)
+	c.havocHeap(s, "Clock")
 	// guarded state is unknown until acquired: havoc it for this object, then assume the lock invariant
 	for _, g := range c.eng.guardsOf(key) {
 		c.havocGuarded(s, base, g)
@@ -877,6 +880,16 @@ func (c *Ctx) applyGhost(s *State, gas []GhostAssign) {
 	env := c.loopEnv(s)
 	env.frame = s.frames[0]
 	env.old = s.frames[0].entry
+	// parameters denote their entry values
+	for i, p := range c.fn.Params {
+		if v, ok := c.entryArgs[i]; ok {
+			env.vars[p.Name()] = tv{v, p.Type()}
+		}
+	}
+	c.applyGhostEnv(s, env, gas)
+}
+
+func (c *Ctx) applyGhostEnv(s *State, env *Env, gas []GhostAssign) {
 	type upd struct {
 		key  string
 		ref  Term
